@@ -328,8 +328,8 @@ def check(repo: Repo, run: Run) -> None:
             run.ob("R4", MOD, "constants", "calcsize(KD_BUF_FORMAT) == 64", False, f"format does not parse: {e}")
     pmod = repo.module("kd_buf_parser")
     ks = consteval.evaluate(repo, pmod, pmod.constants.get("KEVENT_SIZE")) if "KEVENT_SIZE" in pmod.constants else None
-    if ks is None:
-        raise AnalysisError("anchor vanished: kd_buf_parser.KEVENT_SIZE")
+    if ks is None or ks is consteval.UNKNOWN:
+        raise AnalysisError("kd_buf_parser.KEVENT_SIZE is missing or not a constant this analysis can evaluate")
     run.ob("R4", "pykdebugparser.kd_buf_parser", "constants", "KEVENT_SIZE == 64", ks == 64,
            f"KEVENT_SIZE evaluates to {ks!r}: the record loops would read records of the wrong size", facts={"value": ks})
 
@@ -362,6 +362,13 @@ def check(repo: Repo, run: Run) -> None:
     def is_kevent(v):
         return v.op == "call" and v.a[0].op == "global" and v.a[0].a[0].endswith("kevent.Kevent")
     for r_ in rets:
+        if not is_kevent(r_.value) and any(
+                x.op == "call" and (x.a[0].op in ("func",) or (x.a[0].op == "attr" and (
+                    x.a[0].a[0].op == "class" or (x.a[0].a[0].op == "call" and x.a[0].a[0].a[0].op in ("attr", "class", "func")))))
+                for x in sym.walk(r_.value)):
+            # the record is built by a method of a helper class the interpreter did not follow (`KdBuf.unpack(b).to_kevent()`)
+            raise AnalysisError(f"from_kd_buf returns {sym.pretty(r_.value)[:70]}: computed by a helper that is not interpreted in "
+                                f"place - what the record's fields are is not decided")
         if not is_kevent(r_.value):
             run.ob("R2", MOD, "from_kd_buf", f"return at line {r_.lineno} is the decoding of the record", False,
                    f"from_kd_buf returns {sym.pretty(r_.value)[:60]} when {[sym.pretty(c)[:40] + ('' if p_ else ' is false') for c, p_ in r_.pc]}"
@@ -426,8 +433,27 @@ def check(repo: Repo, run: Run) -> None:
                             and all(isinstance(a_, (ast.Constant, ast.BinOp, ast.Name, ast.Attribute, ast.JoinedStr))
                                     for a_ in f_[2].args):
                         return True
+                if x.op == "global" and x.a[0].startswith("pykdebugparser."):
+                    # a module-level table computed once at import time and never changed afterwards (`LAYOUT = _layout(ROWS)`)
+                    f_ = repo.lookup(x.a[0])
+                    if f_ and f_[0] == "const":
+                        nm_ = x.a[0].rsplit(".", 1)[1]
+                        tree_ = f_[1].tree
+                        stores_ = sum(1 for y in ast.walk(tree_) if isinstance(y, ast.Name) and y.id == nm_
+                                      and isinstance(y.ctx, (ast.Store, ast.Del)))
+                        touched_ = any(
+                            (isinstance(y, (ast.Subscript, ast.Attribute)) and isinstance(y.ctx, (ast.Store, ast.Del))
+                             and isinstance(y.value, ast.Name) and y.value.id == nm_)
+                            or (isinstance(y, ast.Call) and isinstance(y.func, ast.Attribute) and isinstance(y.func.value, ast.Name)
+                                and y.func.value.id == nm_ and y.func.attr in sym.MUTATORS)
+                            or (isinstance(y, ast.AugAssign) and isinstance(y.target, ast.Name) and y.target.id == nm_)
+                            for y in ast.walk(tree_))
+                        if stores_ == 1 and not touched_:
+                            return True
                 if x.op == "attr":
-                    return stateless(x.a[0])
+                    # (an attribute of something computed in place - a comprehension, a call result - is judged through the
+                    # names that something mentions, which are walked on their own)
+                    return stateless(x.a[0]) if x.a[0].op in ("global", "attr", "elem", "param", "widen", "lambda", "unknown") else True
                 if x.op == "elem":
                     return True         # what is iterated is walked, and judged, on its own
                 return False
@@ -568,7 +594,7 @@ def check(repo: Repo, run: Run) -> None:
         inlined = f.op == "func" and c.result is not None and not (c.result.op == "call" and c.result.a[0] == f)
         is_nt = f.op == "global" and f.a[0].startswith("pykdebugparser.") and interp.namedtuple_fields(f.a[0]) is not None
         ok = nm in allowed_calls or nm.endswith("kevent.Kevent") or nm in ("tuple", "list", "int", "bytes") or inlined or is_nt
-        if not ok and c.func.op in ("attr", "global", "builtin"):
+        if not ok:
             # an operation this rule has no totality fact about: undecided (reported only if nothing else is wrong)
             undecided.append(f"from_kd_buf calls {nm}: not one of the decoding operations known to be total")
             continue
